@@ -12,11 +12,23 @@
 (*   [op |-> "map_t", a] (pair)  [op |-> "map_a", a] (array of 2)          *)
 (*   [op |-> "map_v", a] (vector)   [op |-> "rep", n, a]                   *)
 (*   [op |-> "id"]   [op |-> "const", v]                                   *)
+(*   [op |-> "sel", id]           Select(selector): the selector consumes  *)
+(*                                ONE word and returns a member of the     *)
+(*                                population (list) it is given - the      *)
+(*                                member at (stream position mod size)     *)
+(*   [op |-> "ext"]               GenomeExtractor: individual -> its genome *)
+(*   [op |-> "scorer", a]         GenomeScorer(a, scorer): applies a to the *)
+(*                                population, scores the genome it made    *)
+(*                                exactly once and pairs genome and score; *)
+(*                                a's failure passes through unchanged and *)
+(*                                the scorer is then not consulted         *)
 (* Values:  [k |-> "i", v]  atom;  [k |-> "o", id, inp, at]  leaf output;  *)
-(*          [k |-> "p", a, b]  pair;  [k |-> "l", xs]  list.               *)
+(*          [k |-> "p", a, b]  pair;  [k |-> "l", xs]  list;                *)
+(*          [k |-> "ind", g, r]  individual (genome, score).                *)
 (*                                                                         *)
-(* Eval(e, x, st) is big-step evaluation threading st = [pos, calls, log]: *)
-(* stream position, number of leaf calls so far, and the call log.  The    *)
+(* Eval(e, x, st) is big-step evaluation threading st = [pos, calls, log,  *)
+(* scored]: stream position, number of leaf calls so far, the call log and *)
+(* the sequence of genomes handed to the scorer.  The                      *)
 (* leaf call number failAt (if any) fails; "the first failing part stops   *)
 (* the pipeline (later parts are neither run nor allowed to consume        *)
 (* randomness) and the error identifies which part or element failed".     *)
@@ -27,6 +39,18 @@ Atom(v) == [k |-> "i", v |-> v]
 Out(id, x, at) == [k |-> "o", id |-> id, inp |-> x, at |-> at]
 PairV(a, b) == [k |-> "p", a |-> a, b |-> b]
 ListV(xs) == [k |-> "l", xs |-> xs]
+IndV(g, r) == [k |-> "ind", g |-> g, r |-> r]
+
+(* the scorer used throughout: a deterministic, order-sensitive digest of a value *)
+RECURSIVE ScoreOf(_)
+RECURSIVE ScoreSeq(_, _)
+ScoreSeq(xs, i) == IF i > Len(xs) THEN 0 ELSE i * ScoreOf(xs[i]) + ScoreSeq(xs, i + 1)
+ScoreOf(v) ==
+  CASE v.k = "i" -> v.v + 1
+    [] v.k = "o" -> 1 + v.id + v.at + ScoreOf(v.inp)
+    [] v.k = "p" -> 2 + ScoreOf(v.a) + 2 * ScoreOf(v.b)
+    [] v.k = "l" -> 3 + ScoreSeq(v.xs, 1)
+    [] v.k = "ind" -> 5 + ScoreOf(v.g) + v.r
 
 Ok(st, v) == [st |-> st, ok |-> TRUE, v |-> v, path |-> <<>>]
 Err(st, p) == [st |-> st, ok |-> FALSE, v |-> Atom(0), path |-> p]
@@ -48,10 +72,21 @@ EvalEach(e, xs, i, st, failAt, tag) ==
 Eval(e, x, st, failAt) ==
   CASE e.op = "leaf" ->
          LET c == st.calls + 1
-             st2 == [pos |-> st.pos + 1, calls |-> c,
-                     log |-> Append(st.log, [id |-> e.id, inp |-> x, at |-> st.pos])]
+             st2 == [st EXCEPT !.pos = st.pos + 1, !.calls = c,
+                     !.log = Append(st.log, [id |-> e.id, inp |-> x, at |-> st.pos])]
          IN IF c = failAt THEN Err(st2, <<[s |-> "leaf", i |-> e.id]>>)
             ELSE Ok(st2, Out(e.id, x, st.pos))
+    [] e.op = "sel" ->
+         LET c == st.calls + 1
+             st2 == [st EXCEPT !.pos = st.pos + 1, !.calls = c,
+                     !.log = Append(st.log, [id |-> e.id, inp |-> x, at |-> st.pos])]
+         IN IF c = failAt THEN Err(st2, <<[s |-> "leaf", i |-> e.id]>>)
+            ELSE Ok(st2, x.xs[(st.pos % Len(x.xs)) + 1])      \* a member, as is
+    [] e.op = "ext" -> Ok(st, x.g)
+    [] e.op = "scorer" ->
+         LET r == Eval(e.a, x, st, failAt) IN
+         IF ~r.ok THEN r                                       \* the maker's error, untouched
+         ELSE Ok([r.st EXCEPT !.scored = Append(@, r.v)], IndV(r.v, ScoreOf(r.v)))
     [] e.op = "id" -> Ok(st, x)
     [] e.op = "const" -> Ok(st, e.v)
     [] e.op = "then" ->
@@ -71,7 +106,7 @@ Eval(e, x, st, failAt) ==
     [] e.op = "map_v" -> EvalEach(e.a, x.xs, 1, st, failAt, TRUE)
     [] e.op = "rep" -> EvalEach(e.a, [i \in 1..e.n |-> x], 1, st, failAt, FALSE)
 
-St0 == [pos |-> 0, calls |-> 0, log |-> <<>>]
+St0 == [pos |-> 0, calls |-> 0, log |-> <<>>, scored |-> <<>>]
 Run(e, x, failAt) == Eval(e, x, St0, failAt)
 
 -----------------------------------------------------------------------------
@@ -79,6 +114,7 @@ Run(e, x, failAt) == Eval(e, x, St0, failAt)
 SA == [k |-> "a"]
 SP(a, b) == [k |-> "p", a |-> a, b |-> b]
 SL(n, e) == [k |-> "l", n |-> n, e |-> e]
+SI(g) == [k |-> "ind", g |-> g]
 Bad == [k |-> "bad"]
 
 RECURSIVE OutShape(_, _)
@@ -87,6 +123,11 @@ OutShape(e, s) ==
   ELSE CASE e.op = "leaf" -> SA
          [] e.op = "id" -> s
          [] e.op = "const" -> SA
+         [] e.op = "sel" -> IF s.k = "l" /\ s.n > 0 THEN s.e ELSE Bad
+         [] e.op = "ext" -> IF s.k = "ind" THEN s.g ELSE Bad
+         [] e.op = "scorer" ->
+              IF s.k # "l" THEN Bad
+              ELSE LET a == OutShape(e.a, s) IN IF a.k = "bad" THEN Bad ELSE SI(a)
          [] e.op = "then" -> OutShape(e.b, OutShape(e.a, s))
          [] e.op = "and" -> LET a == OutShape(e.a, s) b == OutShape(e.b, s)
                             IN IF a.k = "bad" \/ b.k = "bad" THEN Bad ELSE SP(a, b)
@@ -102,8 +143,8 @@ OutShape(e, s) ==
 (* number the leaves 1, 2, ... in depth-first order *)
 RECURSIVE Number(_, _)
 Number(e, next) ==
-  CASE e.op = "leaf" -> [e |-> [e EXCEPT !.id = next], next |-> next + 1]
-    [] e.op \in {"id", "const"} -> [e |-> e, next |-> next]
+  CASE e.op \in {"leaf", "sel"} -> [e |-> [e EXCEPT !.id = next], next |-> next + 1]
+    [] e.op \in {"id", "const", "ext"} -> [e |-> e, next |-> next]
     [] e.op \in {"then", "and"} ->
          LET a == Number(e.a, next) b == Number(e.b, a.next)
          IN [e |-> [e EXCEPT !.a = a.e, !.b = b.e], next |-> b.next]
@@ -113,6 +154,7 @@ Number(e, next) ==
 RECURSIVE Locate(_, _)
 Locate(e, path) ==
   IF path = <<>> THEN e
+  ELSE IF e.op = "scorer" THEN Locate(e.a, path)       \* adds no step of its own
   ELSE LET h == Head(path) IN
        CASE h.s = "leaf"   -> (IF e.op = "rep" THEN Locate(e.a, path) ELSE e)
          [] h.s = "first"  -> (IF e.op = "rep" THEN Locate(e.a, path) ELSE Locate(e.a, Tail(path)))
